@@ -747,6 +747,32 @@ func runC13(c *Ctx) {
 					}
 				}
 			}
+			// ... and nothing answers before the lines were walked: every successful return lies behind the loop's head (a
+			// fast path that returns when some cheaper test of the whole output fails is a second, different parser)
+			if okLine {
+				var loopHead *ssa.BasicBlock
+				if cutIter != nil {
+					if phi, isPhi := throughCell(strip(cutIter.Call.Args[0])).(*ssa.Phi); isPhi {
+						loopHead = phi.Block()
+					}
+				} else if ld, isLd := line.(*ssa.UnOp); isLd {
+					if ia, isIA := ld.X.(*ssa.IndexAddr); isIA {
+						if bin, isBin := ia.Index.(*ssa.BinOp); isBin {
+							loopHead = bin.Block()
+						} else if phi, isPhi := ia.Index.(*ssa.Phi); isPhi {
+							loopHead = phi.Block()
+						}
+					}
+				}
+				if loopHead != nil {
+					for _, r := range w.MayBeNilReturns(pf) {
+						if pf.Recover != nil && r.Block() == pf.Recover {
+							continue
+						}
+						c.Check(loopHead.Dominates(r.Block()), "R4.slots", "ListSlots|no answer before the lines were walked", w.Pos(r.Pos()), "the successful return lies behind the loop over the lines", "the parser can return successfully without walking the lines: output that the shortcut's test misjudges (a first line beginning with 'Slot', no later one) loses its slots")
+					}
+				}
+			}
 			c.Check(okLine, "R4.slots", "ListSlots|every line of the tool output in order", w.Pos(call.Pos()), "for _, line := range strings.Split(output, \"\\n\")", "lines are not taken in order from the tool's output split on newlines")
 			// prefix test
 			isHasPrefix := func(v ssa.Value) bool {
